@@ -173,11 +173,116 @@ func c02Edits(s []vtok) [][]vtok {
 	return out
 }
 
+// pumped sentences: deep nesting and long chains, valid and with one defect deep inside
+func c02Pumped(shape int, n int, defect bool) []vtok {
+	byText := map[string]vtok{}
+	for _, v := range exprVocab {
+		byText[v.text] = v
+	}
+	tk := func(t string) vtok {
+		if v, ok := byText[t]; ok {
+			return v
+		}
+		return vtok{t, "IDENT", nil}
+	}
+	out := []vtok{}
+	add := func(ts ...string) {
+		for _, t := range ts {
+			out = append(out, tk(t))
+		}
+	}
+	switch shape {
+	case 0: // ((((a))))
+		for i := 0; i < n; i++ {
+			add("(")
+		}
+		add("a")
+		for i := 0; i < n; i++ {
+			if defect && i == n/2 {
+				continue
+			}
+			add(")")
+		}
+	case 1: // a + a + a ...
+		add("a")
+		for i := 0; i < n; i++ {
+			add([]string{"+", "*", "AND", "=", "^"}[i%5])
+			if defect && i == n/2 {
+				add("*")
+			}
+			add("a")
+		}
+	case 2: // F(F(F(a)))
+		for i := 0; i < n; i++ {
+			add("F", "(")
+		}
+		add("a")
+		for i := 0; i < n; i++ {
+			if defect && i == n/2 {
+				add("]")
+				continue
+			}
+			add(")")
+		}
+	case 3: // a[a[a[1]]]
+		for i := 0; i < n; i++ {
+			add("a", "[")
+		}
+		add("1")
+		for i := 0; i < n; i++ {
+			if defect && i == n/2 {
+				add(")")
+				continue
+			}
+			add("]")
+		}
+	case 4: // F(1,1,1,...)
+		add("F", "(")
+		for i := 0; i < n; i++ {
+			if i > 0 {
+				add(",")
+				if defect && i == n/2 {
+					add(",")
+				}
+			}
+			add("1")
+		}
+		add(")")
+	case 5: // -(-(-(a)))
+		for i := 0; i < n; i++ {
+			add("-", "(")
+		}
+		add("a")
+		for i := 0; i < n; i++ {
+			add(")")
+		}
+		if defect {
+			add(")")
+		}
+	case 6: // a IS NULL IS NOT NULL ... / NOT IN chains
+		add("a")
+		for i := 0; i < n; i++ {
+			switch i % 3 {
+			case 0:
+				add("IS", "NULL")
+			case 1:
+				add("IS", "NOT", "NULL")
+			default:
+				add("NOT", "IN", "a")
+			}
+			if defect && i == n/2 {
+				add("NOT")
+			}
+		}
+	}
+	return out
+}
+
 func init() {
 	fw.Register(&fw.Check{
 		ID:    "C02",
 		Level: "model_checking",
-		Rule: "(a) every token sequence of length 1..4 over the full 36-token vocabulary; (b) every sequence up to the length bound over a representative 18-token alphabet (one operator per precedence level, every bracket, comma and keyword); (c) the complete single-edit neighbourhood (insert/delete/replace by any vocabulary token, swap, duplicate) of valid sentences of <=9 tokens generated from C01's trees; rendered with single blanks and parsed end-to-end with ParseString; " +
+		Rule: "(a) every token sequence of length 1..4 over the full 39-token vocabulary (incl. quoted identifiers that spell a keyword, an operator or a bracket); (b) every sequence up to the length bound over a representative 18-token alphabet (one operator per precedence level, every bracket, comma and keyword); (c) the complete single-edit neighbourhood (insert/delete/replace by any vocabulary token, swap, duplicate) of valid sentences of <=9 tokens generated from C01's trees; (d) seven families of deep nestings and long chains (parentheses, operator chains, nested calls, nested indexes, long argument lists, nested unary minus, postfix chains) at 13 sizes up to 257, each valid and with one defect in the middle; rendered with single blanks and parsed end-to-end with ParseString; " +
 			"oracle: an independent recursive-descent recogniser — accept iff sentence, accepted => ResultTokens = post-order of the unique tree, rejected => ApplicationError with a code, never a panic; a trailing comma in an argument list is unspecified; non-trivial = valid sentences",
 		Assume: []string{"the recogniser is cross-checked against the sentence generator/printer in C01 (every printed tree must be recognised as its own tree)", "tokenization of single tokens separated by blanks is as C13 establishes"},
 		Spaces: func(tier string) []fw.Space {
@@ -214,6 +319,11 @@ func init() {
 					c02Check(c, seqOf(exprVocabSmall, seqByIndex(small, skipB+i)), "")
 				}, Repr: func(i int64) string {
 					return fmt.Sprintf("tokens %q", vtokText(seqOf(exprVocabSmall, seqByIndex(small, skipB+i))))
+				}},
+				{Name: "pumped-sentences", N: int64(7 * 2 * len(pumpCountsSmall)), Timeout: 300e9, Run: func(c *fw.Ctx, i int64) {
+					c02Check(c, c02Pumped(int(i)%7, pumpCountsSmall[int(i)/14], int(i)/7%2 == 1), "")
+				}, Repr: func(i int64) string {
+					return fmt.Sprintf("pumped sentence shape %d, size %d, defect=%v", int(i)%7, pumpCountsSmall[int(i)/14], int(i)/7%2 == 1)
 				}},
 				{Name: "single-edit-neighbourhood", N: nS, Timeout: 120e9, Run: func(c *fw.Ctx, i int64) {
 					s := getS()[i]
